@@ -1112,7 +1112,7 @@ INLINE_SAFE_EXTERNAL = {"from_elem", "zero", "one", "checked_mul", "checked_add"
 NO_INLINE = {"start", "fingerprint", "hash", "iter_for", "h_i", "scan", "count", "sum", "calc_quotient_remainder", "insert_internal",
              "at_start_of_run", "has_run", "all_zero_intvector", "with_registers_and_hash", "with_params_and_hash", "with_params_and_hasher", "f", "fuse"}
 INLINE_SAFE_CALLEES = {"len", "element_bits", "deref", "borrow", "clone", "as_ref", "is_empty", "m", "k", "buildhasher", "bits_remainder",
-                       "is_some", "is_none", "mean", "delta", "f", "f_inv", "interpolate"}
+                       "is_some", "is_none", "mean", "delta", "f", "f_inv", "interpolate", "x", "z"}
 
 
 def term_at_call_arg(tb, fn, bb, argi):
